@@ -16,6 +16,7 @@ RULE = ("programs over the defined opcode set (read from bits.script.constants a
 ASSUMPTIONS = ["vf/ref/script_ref.py push rules (minimal push for the length); opcode aliases that share a byte are identified",
                "a one-byte data item is a data push (no BIP62 minimal-number rule)"]
 OBLIGATIONS = {
+    "history_sequences": "operation sequences (non-initial process states) explored",
     "pushdata1": "a data item of 76..255 bytes", "pushdata2": "a data item of 256..65535 bytes", "pushdata4": "a data item >= 65536 bytes",
     "alias_opcode": "an opcode name that shares its byte with another name",
     "empty_witness_stack": "an empty witness stack with trailing data", "witness_item_ge_253": "a witness item >= 253 bytes",
@@ -185,7 +186,27 @@ CASES = {"prog": chk_prog, "witness": chk_witness, "builder": chk_builder}
 
 
 def run_case(kind, case):
+    if kind == "seq":
+        from vf import seqexplore
+        return seqexplore.replay(run_case, case)
     return CASES[kind](case)
+
+
+def seq_ops(job):
+    """same lengths through the script / witness / builder paths in every order; builders called repeatedly"""
+    seed = job["seed"]
+    ops = []
+    for n in (105, 300):
+        ops.append(("witness", {"seed": seed, "lens": [n], "tail": ""}))
+        ops.append(("prog", {"seed": seed, "prog": [["data", n]]}))
+        ops.append(("builder", {"seed": seed, "builder": "p2sh_sig", "n": n, "sigs": [71]}))
+    ops.append(("builder", {"seed": seed, "builder": "p2sh_p2wsh_sig", "n": 34}))
+    ops.append(("builder", {"seed": seed + 1, "builder": "p2sh_p2wsh_sig", "n": 34}))
+    ops.append(("builder", {"seed": seed, "builder": "p2sh_p2wpkh_sig", "n": 22}))
+    ops.append(("builder", {"seed": seed, "builder": "p2sh_multisig_sig", "n": 71, "sigs": [71, 72]}))
+    ops.append(("builder", {"seed": seed, "builder": "multisig_pubkey", "m": 2, "keys": [33, 65, 33]}))
+    ops.append(("builder", {"seed": seed, "builder": "nulldata", "n": 80}))
+    return ops
 
 
 WLENS = [0, 1, 75, 76, 252, 253, 255, 256, 65535, 65536]
@@ -199,10 +220,15 @@ def jobs(tier, seed):
         js.append({"name": f"witness/{sh}", "part": "witness", "shard": [sh, 8], "weight": 6})
     for sh in range(8):
         js.append({"name": f"builders/{sh}", "part": "builders", "shard": [sh, 8], "weight": 4})
+    from vf.runner import seq_jobs
+    js += seq_jobs(4, weight=3)
     return js
 
 
 def run_job(job):
+    if job["part"] == "seq":
+        from vf.runner import run_seq_job
+        return run_seq_job(job, seq_ops(job), run_case)
     acc = Acc(job)
     seed, tier, part = job["seed"], job["tier"], job["part"]
     ops = opcodes()
